@@ -45,6 +45,12 @@ def check(ctx):
             lines += calls_for(list(x))
     for i in range(2000 if ctx.thorough else 300):
         lines += calls_for([rng.randrange(256) for _ in range(rng.choice([1, 2, 3, 4, 5, 6, 7, 30, 31, 32, 33, 200]))])
+    # base64 of inputs beyond 2^16 bytes and beyond 2^16 three-byte groups (judged by the position-by-position form of the definition)
+    for n in ([65535, 65536, 65537, 196607, 196608, 196609, 200000] if ctx.thorough else [65536, 196608, 196610]):
+        x = [rng.randrange(256) for _ in range(n)]
+        lines.append("Codec %s %s" % (rng.choice(["b64enc_ptr", "b64enc_string"]), fmt(x)))
+        lines.append("Codec %s %s" % (rng.choice(["b64urlenc_ptr", "b64urlenc_string"]), fmt(x)))
+        lines.append("Codec b64dec %s" % fmt(b64enc(x)))
     # fixed width helpers: 8/16 bit exhaustive, 32/64 boundary biased
     for v in range(256):
         lines.append("Codec u8hex %d" % v)
